@@ -301,6 +301,7 @@ def run(ctx):
     progcases.run_cases(ctx, gen.sweep_cases(ctx.rng, 1.0 if ctx.tier == "thorough" else 0.34))
     progcases.run_cases(ctx, gen.huge_flat_cases(ctx.rng, ctx.tier == "thorough"), check_model=False, want_stages=False)
     progcases.run_cases(ctx, gen.two_word_token_cases(), want_stages=False)
+    progcases.run_cases(ctx, gen.negated_comparison_cases(), check_model=False, want_stages=False)
     # the same statement several times in one program, at different depths
     progcases.run_cases(ctx, gen.repeated_leaf_programs(ctx.rng, None if ctx.tier == 'thorough' else [1, 3, 20, 21, 24, 33, 65]), want_stages=False)
     progcases.run_cases(ctx, gen.membership_cases(ctx.rng, 60 if ctx.tier == 'quick' else 1500), check_model=False, want_stages=False)
